@@ -156,9 +156,17 @@ func (w *worker) caseOfConn(c *gortsplib.ServerConn) *caseObs {
 	return w.byConn[c]
 }
 
-func newWorker(listenIP string, idle time.Duration) (*worker, error) {
+// newWorker starts a server on a free port, or on the default RTSP port 554 (for URLs without a
+// port) when defaultPort is set.
+func newWorker(listenIP string, idle time.Duration, defaultPort bool) (*worker, error) {
 	w := &worker{byTag: map[string]*caseObs{}, byConn: map[*gortsplib.ServerConn]*caseObs{}, bySess: map[*gortsplib.ServerSession]*caseObs{}}
-	ts, err := rig.StartServer(rig.ServerOpts{UDP: true, HandlerSet: "full", NoLog: true, NoStream: true, OnEvent: w.onEvent, ListenIP: listenIP, IdleTimeout: idle})
+	o := rig.ServerOpts{UDP: true, HandlerSet: "full", NoLog: true, NoStream: true, OnEvent: w.onEvent, ListenIP: listenIP, IdleTimeout: idle}
+	if defaultPort {
+		o.Mutate = func(s *gortsplib.Server) {
+			s.RTSPAddress = s.RTSPAddress[:strings.LastIndex(s.RTSPAddress, ":")] + ":554"
+		}
+	}
+	ts, err := rig.StartServer(o)
 	if err != nil {
 		return nil, err
 	}
